@@ -18,7 +18,7 @@ pub struct Method {
 }
 
 impl Method {
-    fn sig(&self, with_pats: bool) -> String {
+    pub fn sig(&self, with_pats: bool) -> String {
         let mut ps = vec!["&self".to_string()];
         for p in &self.params {
             let pat = if with_pats || p.pk == PK::Wild { p.pat(&self.name) } else { p.name.clone() };
